@@ -54,7 +54,7 @@ type env struct {
 }
 
 func newEnv(r *rand.Rand, dir string, limit rate.Limit, nlogs int) (*env, error) {
-	u := gen.NewUniverse(r, gen.Opts{NLogs: nlogs, MaxSize: 30, Branches: 2 + r.IntN(2), ShareKeys: true})
+	u := gen.NewUniverse(r, gen.Opts{NLogs: nlogs, MaxSize: 30, Branches: 2 + r.IntN(2), ShareKeys: true, SameKeyNames: true})
 	st, err := wit.NewStore(wit.DrawStore(r), dir)
 	if err != nil {
 		return nil, err
